@@ -25,7 +25,7 @@ fn stored_cps(w: &World) -> (u32, Vec<Byte32>) {
 pub fn run(cfg: &RunCfg, out: &Out) {
     // one chain per shard (cheap to reuse)
     let (now, base_ts) = time_base();
-    let params = ChainParams { seed: cfg.shard_seed(), pow: PowKind::Dummy, epoch_len: (10, 20), base_difficulty: ckb_types::U256::from(1000u64), diff_mode: DiffMode::Fixed, tx_density: 10, n_locks: 2, n_types: 0, base_ts, always_success: false };
+    let params = ChainParams { seed: cfg.shard_seed(), pow: PowKind::Dummy, epoch_len: (10, 20), base_difficulty: ckb_types::U256::from(1000u64), diff_mode: DiffMode::Fixed, tx_density: 10, n_locks: 2, n_types: 0, base_ts, always_success: false, secp: false };
     let chain = Chain::generate(params, 140);
     for k in 0..cfg.budget {
         if out.time_up() {
